@@ -18,6 +18,7 @@ type Clause struct {
 	Label  string
 	Text   string
 	Expr   Expr
+	LHS    Expr   // ghost assignment target
 	Name   string // let name
 	Loop   int    // loop ordinal for invariant/decreases
 	File   string
@@ -187,7 +188,7 @@ func (sf *SpecFile) load(path string, extern bool) error {
 			counts = map[string]int{}
 		case first == "use":
 			sf.Uses = append(sf.Uses, strings.Fields(rest)...)
-		case first == "ghost":
+		case first == "ghost" && (strings.HasPrefix(rest, "field ") || strings.HasPrefix(rest, "var ")):
 			fs := strings.Fields(rest)
 			if len(fs) >= 3 && fs[0] == "field" {
 				sf.GhostFields[fs[1]] = &GhostField{Name: fs[1], Sort: strings.Join(fs[2:], " ")}
@@ -305,6 +306,21 @@ func (sf *SpecFile) load(path string, extern bool) error {
 				props, _ := parsePropsLabel(strings.TrimPrefix(first, "nopanic"))
 				cur.NoPanic = append(cur.NoPanic, props...)
 				cur.HasNoPanic = true
+			case first == "ghost":
+				// ghost assignment executed when the function returns:  ghost stk[enc] = stk_key(old(stk[enc]))
+				eq := strings.Index(rest, " = ")
+				if eq < 0 {
+					return fail(l, "bad ghost assignment")
+				}
+				e, err := parseExpr(rest[eq+3:])
+				if err != nil {
+					return fail(l, "%v", err)
+				}
+				lhs, err := parseExpr(rest[:eq])
+				if err != nil {
+					return fail(l, "%v", err)
+				}
+				cur.Clauses = append(cur.Clauses, &Clause{Kind: "ghostset", Name: strings.TrimSpace(rest[:eq]), Text: rest, Expr: e, LHS: lhs, File: path, Line: l.line})
 			case first == "let":
 				eq := strings.Index(rest, "=")
 				if eq < 0 {
